@@ -16,6 +16,8 @@ extern crate segment_tree;
 #[macro_use]
 pub mod util;
 mod backing_store;
+#[cfg(rsdd_verif)]
+pub mod verif;
 pub mod builder;
 pub mod constants;
 pub mod plan;
